@@ -440,6 +440,10 @@ def c04_e(ctx: Ctx):
                                 "(and every shallow copy of it) then has no way to recover its state point - cached_statepoint / repr raise KeyError", construct=kq))
         elif fresh:
             out.append(ctx.ok(R, f, fresh[0].ast, f"the refreshed {obj}._cached_statepoint is not wiped again in the same pass", construct=kq))
+        elif wipes and f.qual == SAVE:
+            out.append(ctx.viol(R, f, wipes[0][0].ast, f"when the state point (and id) changes, {obj}._cached_statepoint is only put back to 'unknown' ({wipes[0][1]}) and never given the new "
+                                "state point: for a job that is not initialised there is nothing to reload it from - the new state point exists only in memory - so cached_statepoint / repr of "
+                                "the handle and of its shallow copies raise KeyError(new id)", construct=kq))
     return out
 
 
